@@ -64,11 +64,11 @@ def r1(ctx):
     assoc, cb, _ = find_visitor(repo)
     evc = [c for c in cb.calls() if isinstance(c.func, ast.Attribute) and c.func.attr == "evaluate_for_platform"]
     kw = next((u(k.value) for k in evc[0].keywords if k.arg == "filename"), None) if evc else None
-    ctx.check(kw == f"self._get_realpath({assoc.params[1]})", "finder:ParserState.associate:filename-canonical", f"nodes must be evaluated with filename=self._get_realpath(<file>): got {kw}", cb.loc())
+    ctx.soft(kw == f"self._get_realpath({assoc.params[1]})", "finder:ParserState.associate:filename-canonical", f"nodes must be evaluated with filename=self._get_realpath(<file>): got {kw}", cb.loc())
     # FileParser opens the canonical path it was given
     ins = ps.find_method("insert_file")
     fp = [c for c in ins.calls() if (dotted(c.func) or "").endswith("FileParser")]
-    ctx.check(len(fp) == 1 and u(fp[0].args[0]) == ins.params[1], "finder:ParserState.insert_file:parses-canonical", "the file parsed must be the canonical path used as table key", ins.loc())
+    ctx.soft(len(fp) == 1 and u(fp[0].args[0]) == ins.params[1], "finder:ParserState.insert_file:parses-canonical", "the file parsed must be the canonical path used as table key", ins.loc())
     ctx.floor(7 + 3)
 
 
